@@ -1,7 +1,7 @@
 From Coq Require Import ZArith List Bool Lia.
 From Arsenal Require Import Util.
 From Arsenal Require Import Budget BudgetProofs.
-From Arsenal Require VamDev VamBlockList Vam VamInv VamInvThm VamProps VamAcct VamAcctThm.
+From Arsenal Require VamDev VamBlockList Vam VamInv VamInvThm VamProps VamAcct VamAcctThm VamDefrag VamDefragThm VamDefragAcct.
 Import ListNotations.
 Open Scope Z_scope.
 (* C04 — Allocator statistics and heap budget figures equal device ground truth.
@@ -94,4 +94,19 @@ Example C04_allocator_nonvacuous :
   | _ => False
   end.
 Proof. exact acct_nonvacuous. Qed.
+
+(* The same with defragmentation: reachDA = states reachable when defragmentation runs (Begin / pass / End with
+   any copy-ignore-destroy decisions / Finish, any fault oracle) are interleaved with API calls between passes
+   (passes on lists of granularity 1; at most 2^22 Allocation objects incl. the temporaries of a pass). *)
+Theorem C04_allocator_budget_equals_truth_defrag : forall c v run,
+  cfg_acct c -> VamDefragAcct.reachDA c v run ->
+  (forall h, heaps (m_bud (v_m v)) h = mkHc (dev_count c v h) (alloc_count c v h) (dev_bytes c v h) (alloc_bytes c v h)) /\
+  memCount (m_bud (v_m v)) = zlen (m_mems (v_m v)).
+Proof. intros c v run Ha. exact (VamDefragAcct.budget_equals_truth_defrag c Ha v run). Qed.
+Print Assumptions C04_allocator_budget_equals_truth_defrag.
+
+Theorem C04_allocator_stats_equal_truth_defrag : forall c v run t,
+  cfg_acct c -> VamDefragAcct.reachDA c v run -> exists d, type_dstats v t = Some d /\ basic d = type_truth v t.
+Proof. intros c v run t Ha. exact (VamDefragAcct.stats_equal_truth_defrag c Ha v run t). Qed.
+Print Assumptions C04_allocator_stats_equal_truth_defrag.
 End Allocator.
